@@ -1,6 +1,23 @@
 package main
 
-// MutantReport summarises the sensitivity suite (thorough tier).
+import (
+	"fmt"
+	"io"
+	"io/fs"
+	"os"
+	"os/exec"
+	"path/filepath"
+	"regexp"
+	"sort"
+	"strings"
+	"sync"
+)
+
+// MutantReport summarises the sensitivity suite (thorough tier): every
+// patch under /verif/mutants is applied to a scratch copy of the repository
+// (outside /repo and /verif, removed at once), the analyser is run on it in
+// a separate process, and the report must contain a violation. Misses are
+// WARNINGs and never change the verdict on /repo.
 type MutantReport struct {
 	Applied  int      `json:"applied"`
 	Detected int      `json:"detected"`
@@ -9,4 +26,118 @@ type MutantReport struct {
 	Details  []string `json:"details"`
 }
 
-func runMutants(root string) *MutantReport { return nil }
+func copyTree(src, dst string) error {
+	return filepath.WalkDir(src, func(path string, d fs.DirEntry, err error) error {
+		if err != nil {
+			return err
+		}
+		rel, _ := filepath.Rel(src, path)
+		if d.IsDir() {
+			if d.Name() == ".git" && path != src {
+				return filepath.SkipDir
+			}
+			return os.MkdirAll(filepath.Join(dst, rel), 0o755)
+		}
+		if !d.Type().IsRegular() {
+			return nil
+		}
+		in, err := os.Open(path)
+		if err != nil {
+			return err
+		}
+		defer in.Close()
+		out, err := os.Create(filepath.Join(dst, rel))
+		if err != nil {
+			return err
+		}
+		defer out.Close()
+		_, err = io.Copy(out, in)
+		return err
+	})
+}
+
+var violRe = regexp.MustCompile(`(?m)^(?:VIOLATED|UNDECIDED) (\S+)`)
+
+func runMutants(root string) *MutantReport {
+	rep := &MutantReport{}
+	patches, _ := filepath.Glob(filepath.Join(verifDir, "mutants", "*.patch"))
+	sort.Strings(patches)
+	if len(patches) == 0 {
+		return rep
+	}
+	exe, err := os.Executable()
+	if err != nil {
+		return rep
+	}
+	type res struct {
+		name, detail string
+		state        int // 0 detected, 1 missed, 2 stale
+	}
+	results := make([]res, len(patches))
+	sem := make(chan struct{}, 4)
+	var wg sync.WaitGroup
+	for i, p := range patches {
+		wg.Add(1)
+		go func(i int, p string) {
+			defer wg.Done()
+			sem <- struct{}{}
+			defer func() { <-sem }()
+			name := strings.TrimSuffix(filepath.Base(p), ".patch")
+			dir, err := os.MkdirTemp("", "clusterlint-mutant-")
+			if err != nil {
+				results[i] = res{name, "mktemp: " + err.Error(), 2}
+				return
+			}
+			defer os.RemoveAll(dir)
+			if err := copyTree(root, dir); err != nil {
+				results[i] = res{name, "copy: " + err.Error(), 2}
+				return
+			}
+			ap := exec.Command("patch", "-p1", "-s", "-i", p)
+			ap.Dir = dir
+			if out, err := ap.CombinedOutput(); err != nil {
+				results[i] = res{name, "patch does not apply any more: " + strings.TrimSpace(string(out)), 2}
+				return
+			}
+			cmd := exec.Command(exe, "-repo", dir, "-property", "all", "-no-evidence", "-no-cache", "-tier", "quick")
+			cmd.Env = append(os.Environ(), "VERIF_DIR="+verifDir, "VERIF_TIER=quick")
+			out, _ := cmd.CombinedOutput()
+			if strings.Contains(string(out), "BROKEN:") {
+				results[i] = res{name, "analysis broken on the mutant (does not type-check?)", 2}
+				return
+			}
+			ms := violRe.FindAllStringSubmatch(string(out), -1)
+			seen := map[string]bool{}
+			var keys []string
+			for _, m := range ms {
+				if !seen[m[1]] {
+					seen[m[1]] = true
+					keys = append(keys, m[1])
+				}
+			}
+			if len(keys) == 0 {
+				results[i] = res{name, "NOT DETECTED", 1}
+				return
+			}
+			if len(keys) > 4 {
+				keys = append(keys[:4], fmt.Sprintf("(+%d more)", len(keys)-4))
+			}
+			results[i] = res{name, "detected by " + strings.Join(keys, ", "), 0}
+		}(i, p)
+	}
+	wg.Wait()
+	for _, r := range results {
+		switch r.state {
+		case 0:
+			rep.Applied++
+			rep.Detected++
+		case 1:
+			rep.Applied++
+			rep.Misses = append(rep.Misses, r.name)
+		case 2:
+			rep.Stale = append(rep.Stale, r.name+": "+r.detail)
+		}
+		rep.Details = append(rep.Details, r.name+": "+r.detail)
+	}
+	return rep
+}
